@@ -10,6 +10,7 @@ import AslProofs.XdlUtf8Enc
 import AslProofs.XdlNum
 import AslProofs.NumValDefs
 import AslProofs.NumVal
+import AslProofs.FmtShape
 /-!
 # C05 — JSON (and XDL) encoding round-trips every Var
 
@@ -154,8 +155,26 @@ theorem float_roundtrip (g : Nat → UInt64 → Bytes) (atof : Bytes → UInt64)
 /-- H2d for the models the driver runs (= for glibc, by the correspondence check): not proved -/
 def double_roundtrip_full : Prop := H2d AslModel.Dtoa.fmtG AslModel.Strtod.atofBits
 
-/-- H1v for the formatter the driver runs: correct rounding of `Dtoa.fmtG` — see `fmtG_H1` below for what is proved -/
+/-- H1v for the formatter the driver runs (shape AND correct rounding of the printed value).  Proved so far:
+    the shape (`fmtG_H1`) and the rounding core (`fmtG_digits_rounded_partial`); missing: reading the three
+    `%g` layouts back as `n·10^(x-P+1)` (`lexVal (fmtG P b)`). -/
 def fmtG_rounds_full : Prop := H1v AslModel.Dtoa.fmtG
+
+/-- **H1 holds for the formatter the driver runs**: `Dtoa.fmtG P b` is an RFC 8259 number lexeme for every
+    precision and every bit pattern (three `%g` layouts, exactly `P` significant digits with a non-zero
+    leading digit, stripped zeros, two-digit exponent).  Every theorem of this file that assumes `H1 g`
+    therefore applies to the instance compared with glibc on every run. -/
+theorem fmtG_H1 : H1 AslModel.Dtoa.fmtG := fun P b _ => AslProofs.Fmt.fmtG_number P b
+
+/-- the rounding core of `fmtG`: the `P` significant digits `n` and decimal exponent `x` it lays out satisfy
+    `10^(P-1) ≤ n < 10^P` and `|n·10^(x-P+1) − num/den| ≤ ½·10^(X-P+1)` where `10^X ≤ num/den < 10^(X+1)`
+    (`num/den` = the magnitude of the double as `Dtoa.decompose` gives it) — round-half-even, exact over ℚ -/
+theorem fmtG_digits_rounded_partial (P num den : ℕ) (hP : 1 ≤ P) (hn : 0 < num) (hd : 0 < den) :
+    10 ^ (P - 1) ≤ (AslModel.Dtoa.sigDigits P num den).1 ∧ (AslModel.Dtoa.sigDigits P num den).1 < 10 ^ P ∧
+    ∃ X : ℤ, (10 : ℚ) ^ X ≤ (num : ℚ) / den ∧ (num : ℚ) / den < (10 : ℚ) ^ (X + 1) ∧
+      |((AslModel.Dtoa.sigDigits P num den).1 : ℚ) * (10 : ℚ) ^ ((AslModel.Dtoa.sigDigits P num den).2 - P + 1) - (num : ℚ) / den|
+        ≤ (10 : ℚ) ^ (X - P + 1) / 2 :=
+  AslProofs.Fmt.sigDigits_spec P num den hP hn hd
 
 /-! ## well-formed UTF-8 in, well-formed UTF-8 out -/
 
@@ -211,15 +230,13 @@ example : AslProofs.XdlX.WFX (.obj [(classKey, .str [80, 111, 105, 110, 116]), (
 
 /-! ## non-vacuity -/
 
-/-- the hypothesis H1 is satisfiable and the statements are about texts that really occur -/
-example : encode (fun _ _ => [49, 46, 53]) ⟨false, false, true, false⟩
+/-- the statements are about texts that really occur, with the driver's own formatter (H1 by `fmtG_H1`) -/
+example : encode AslModel.Dtoa.fmtG ⟨false, false, true, false⟩
     (.obj [([97], .arr [.int (-7), .num 0x3ff8000000000000, .str [34, 1]]), ([98], .none)]) =
-    [123, 34, 97, 34, 58, 91, 45, 55, 44, 49, 46, 53, 44, 34, 92, 34, 92, 117, 48, 48, 48, 49, 34, 93, 125] := by rfl
-example : H1 (fun _ _ => [49, 46, 53]) := by
-  intro P b _
-  exact Number.mk [] [49] [46, 53] [] (Or.inl rfl) (.nz 49 [] (by decide) (by decide) (by intro x hx; simp at hx))
-    (.some 53 [] (by unfold isDig; decide) (by intro x hx; simp at hx)) .none
+    [123, 34, 97, 34, 58, 91, 45, 55, 44, 49, 46, 53, 44, 34, 92, 34, 92, 117, 48, 48, 48, 49, 34, 93, 125] := by decide
 example : WF (.obj [([97], .arr [.int (-7), .num 0x3ff8000000000000, .str [34, 1]]), ([98], .none)]) := by
   simp [WF, WFM, WFL]
+example : KeysNodup (.obj [([97], .arr [.int (-7), .num 0x3ff8000000000000, .str [34, 1]]), ([98], .none)]) := by
+  simp [KeysNodup, KeysNodupM, KeysNodupL]
 
 end C05
